@@ -257,11 +257,22 @@ class Weaver:
         fid = spec.get("id", spec["path"])
         if "body_open" not in it:
             raise Undecided(f"{spec['path']} has no body")
-        if it.get("is_async"):
+        if it.get("is_async") and not spec.get("sequential_async"):
             raise Undecided(f"{spec['path']} is async: outside the Verus dialect")
         s, e = it["span"]
         src = self.ix.source(it["file"])
         ed = Edits(s, src[s:e])
+        if it.get("is_async"):
+            # D4: the `async` keyword and every `.await` suffix are dropped: the body is verified as sequential code (each awaited
+            # call is an ordinary call of a stand-in). What this drops: interleaving with other tasks at the await points.
+            if "awaits" not in it or not it.get("async_kw"):
+                raise Undecided(f"{spec['path']} is async and the index has no await spans")
+            mx = spec.get("max_awaits")
+            if mx is not None and len(it["awaits"]) > mx:
+                raise Undecided(f"{spec['path']} now has {len(it['awaits'])} await points, contract was written for at most {mx} (D4)")
+            ed.replace(it["async_kw"][0], it["async_kw"][1], "", "D4")
+            for a in it["awaits"]:
+                ed.replace(a["span"][0], a["span"][1], "", "D4")
         # D2: attributes and doc comments on the fn, and attributes inside the body
         for a in it["attrs"]:
             ed.replace(a["span"][0], a["span"][1], "", "D2")
@@ -388,8 +399,18 @@ class Weaver:
             if h.get("at") == "entry":
                 continue
             anchor = h.get("after") or h.get("before")
-            n = text.count(anchor)
             occ = h.get("occurrence")
+            if isinstance(anchor, list):
+                # alternative anchors, tried in order: the first one present (uniquely, unless `occurrence` is given) is used
+                cands = [a for a in anchor if text.count(a) == 1 or (text.count(a) > 1 and occ is not None)]
+                if not cands:
+                    raise Undecided(f"W5 hint: none of the alternative anchors {anchor!r} occurs in {spec['path']}")
+                if h.get("after"):
+                    h = dict(h, after=cands[0])
+                else:
+                    h = dict(h, before=cands[0])
+                anchor = cands[0]
+            n = text.count(anchor)
             if n == 0 or (n > 1 and occ is None):
                 raise Undecided(f"W5 hint anchor {anchor!r} occurs {n} times in {spec['path']}")
             pos = -1
